@@ -34,6 +34,11 @@ pub enum Initial {
     /// lock and meta of a live authority written in a record layout this build cannot parse
     /// (version skew): valid JSON, wrong shape
     LiveForeignLayout,
+    /// lock and meta of an authority that answers on its advertised endpoint while its pid has no
+    /// process this contender can see (another pid namespace, a shared store): it is alive — both
+    /// recovery loops ask the endpoint first — and must be left alone. Real-time scenario, see
+    /// `execute_reachable`.
+    ReachableInvisiblePid,
 }
 
 #[derive(Clone, Debug, Serialize, Deserialize, PartialEq)]
@@ -94,6 +99,16 @@ pub fn generate(run_seed: u64, tier: Tier) -> Scenario {
         10 => Initial::DeadMetaOnly,
         _ => Initial::DeadMetaLiveLock,
     };
+    // own sub-stream, so the draws above are what they were before this state existed
+    let mut rr = Rng::derive(run_seed, "c18:reachable");
+    let initial = if rr.chance(1, 16) {
+        if let Some(c) = contenders.first_mut() {
+            c.client = rr.chance(2, 3);
+        }
+        Initial::ReachableInvisiblePid
+    } else {
+        initial
+    };
     let mut srng = Rng::derive(run_seed, "sched-spec");
     let mut sched = SchedSpec::generate(&mut srng, 300);
     sched.yield_on_reads = true;
@@ -142,7 +157,145 @@ fn pid_of(actor: usize) -> i32 {
     seam::FAKE_PID_BASE + 1 + actor as i32
 }
 
+/// The reachable-endpoint state cannot run under the baton scheduler's paused runtimes (a paused
+/// tokio clock fires the ping's timeout the moment the runtime idles on the socket), so it runs in
+/// real time: contenders are plain threads with simulated pids (kill/getpid seam), the authority is
+/// a loop-back responder that answers every request, the libc seam observes. Nothing here is
+/// expected to write: a client must attach to the advertised endpoint, a server must be refused,
+/// lock.json and meta.json must keep their bytes. A failing attempt is repeated once and only
+/// reported when it fails again (the ping has a real 250 ms timeout).
+fn execute_reachable(sc: &Scenario, env: &Env) -> (Outcome, RunStats) {
+    let mut stats = RunStats::default();
+    stats.bump("initial:ReachableInvisiblePid", 1);
+    stats.case_hash = crate::prng::fnv1a(serde_json::to_string(sc).unwrap_or_default().as_bytes());
+    stats.nontrivial = true;
+    let mut last: Option<Violation> = None;
+    for attempt in 0..2 {
+        match reachable_attempt(sc, env, &mut stats) {
+            Ok(None) => {
+                if attempt > 0 {
+                    stats.bump("reachable_state_first_attempt_not_reproduced", 1);
+                }
+                return (Outcome::Ok, stats);
+            }
+            Ok(Some(v)) => last = Some(v),
+            Err(e) => return (Outcome::Harness(e), stats),
+        }
+    }
+    (Outcome::Violation(last.unwrap()), stats)
+}
+
+fn reachable_attempt(sc: &Scenario, env: &Env, stats: &mut RunStats) -> Result<Option<Violation>, String> {
+    use std::io::{Read, Write};
+    use std::sync::atomic::{AtomicBool, Ordering};
+    let base = env.root.join("r");
+    let _ = std::fs::remove_dir_all(&base);
+    let (data, ws) = (base.join("data"), base.join("ws"));
+    let auth = data.join("authority");
+    std::fs::create_dir_all(&auth).map_err(|e| e.to_string())?;
+    std::fs::create_dir_all(&ws).map_err(|e| e.to_string())?;
+    // the authority: answers every request on loop-back
+    let listener = std::net::TcpListener::bind("127.0.0.1:0").map_err(|e| e.to_string())?;
+    let addr = listener.local_addr().map_err(|e| e.to_string())?;
+    let stop = Arc::new(AtomicBool::new(false));
+    let served = Arc::new(std::sync::atomic::AtomicU64::new(0));
+    let mut responders = Vec::new();
+    for _ in 0..3 {
+        let (l, st, sv) = (listener.try_clone().map_err(|e| e.to_string())?, stop.clone(), served.clone());
+        responders.push(std::thread::spawn(move || {
+            while let Ok((mut c, _)) = l.accept() {
+                if st.load(Ordering::SeqCst) {
+                    break;
+                }
+                let mut buf = [0u8; 2048];
+                let _ = c.read(&mut buf);
+                let _ = c.write_all(b"HTTP/1.1 200 OK\r\ncontent-type: application/json\r\ncontent-length: 2\r\nconnection: close\r\n\r\n{}");
+                sv.fetch_add(1, Ordering::SeqCst);
+            }
+        }));
+    }
+    let endpoint = format!("http://{addr}");
+    let ws_s = ws.to_string_lossy().to_string();
+    seam::pid_set_alive(EXTERNAL_DEAD_PID, false);
+    let lock_bytes = format!("{}\n", json!({"pid": EXTERNAL_DEAD_PID, "started_at_ms": 1_799_999_000_000u64, "workspace_root": ws_s}));
+    let meta_bytes = format!("{}", json!({"endpoint": endpoint, "pid": EXTERNAL_DEAD_PID, "started_at_ms": 1_799_999_000_000u64, "workspace_root": ws_s}));
+    std::fs::write(auth.join("lock.json"), &lock_bytes).map_err(|e| e.to_string())?;
+    std::fs::write(auth.join("meta.json"), &meta_bytes).map_err(|e| e.to_string())?;
+    std::env::set_var("RIP_DATA_DIR", &data);
+    std::env::set_var("RIP_WORKSPACE_ROOT", &ws);
+    let results: Arc<Mutex<Vec<(usize, bool, Result<String, String>)>>> = Arc::new(Mutex::new(Vec::new()));
+    let mut threads = Vec::new();
+    for (i, c) in sc.contenders.iter().enumerate() {
+        let (c, data, ws, res) = (c.clone(), data.clone(), ws.clone(), results.clone());
+        threads.push(std::thread::spawn(move || {
+            let pid = pid_of(i);
+            seam::set_fake_pid(pid);
+            seam::pid_set_alive(pid, true);
+            std::thread::sleep(std::time::Duration::from_millis(c.start_delay as u64));
+            let rt = match tokio::runtime::Builder::new_current_thread().enable_all().build() {
+                Ok(r) => r,
+                Err(e) => {
+                    res.lock().unwrap().push((i, c.client, Err(format!("runtime: {e}"))));
+                    return;
+                }
+            };
+            let r = if c.client {
+                rt.block_on(crate::cli_local_authority::ensure_local_authority()).map_err(|e| e.to_string())
+            } else {
+                rt.block_on(ripd::verif_api::acquire_authority_lock_with_recovery(&data, &ws)).map(|g| {
+                    // it must not get here; keep the files as they are for the report
+                    std::mem::forget(g);
+                    "acquired".to_string()
+                })
+            };
+            res.lock().unwrap().push((i, c.client, r));
+            seam::set_fake_pid(0);
+        }));
+    }
+    for t in threads {
+        let _ = t.join();
+    }
+    stop.store(true, Ordering::SeqCst);
+    for _ in 0..responders.len() {
+        let _ = std::net::TcpStream::connect(addr);
+    }
+    for r in responders {
+        let _ = r.join();
+    }
+    std::env::remove_var("RIP_DATA_DIR");
+    std::env::remove_var("RIP_WORKSPACE_ROOT");
+    unsafe {
+        let mut status = 0;
+        while libc::waitpid(-1, &mut status, libc::WNOHANG) > 0 {}
+    }
+    stats.bump("reachable_state_pings_served", served.load(Ordering::SeqCst));
+    let lock_now = std::fs::read_to_string(auth.join("lock.json")).ok();
+    let meta_now = std::fs::read_to_string(auth.join("meta.json")).ok();
+    let res = results.lock().unwrap().clone();
+    let summary: Vec<String> = res.iter().map(|(i, client, r)| format!("{} pid {}: {}", if *client { "client" } else { "server" }, pid_of(*i), match r { Ok(s) => format!("ok({s})"), Err(e) => format!("err({})", e.chars().take(70).collect::<String>()) })).collect();
+    if lock_now.as_deref() != Some(lock_bytes.as_str()) || meta_now.as_deref() != Some(meta_bytes.as_str()) {
+        let which = if lock_now.as_deref() != Some(lock_bytes.as_str()) { "lock.json" } else { "meta.json" };
+        return Ok(Some(Violation { class: "live_authority_files_taken".into(), signature: format!("live_authority_files_taken:{which}:reachable_endpoint_invisible_pid"), detail: format!("the authority advertised in meta.json answers on {endpoint} (its pid {EXTERNAL_DEAD_PID} is not visible to the contenders), yet {which} was removed or replaced; contenders: {summary:?}") }));
+    }
+    for (i, client, r) in &res {
+        match (client, r) {
+            (true, Ok(e)) if *e == endpoint => stats.bump("reachable_state_client_attached", 1),
+            (true, other) => {
+                return Ok(Some(Violation { class: "reachable_authority_not_attached".into(), signature: "reachable_authority_not_attached:client".into(), detail: format!("client pid {} did not attach to the reachable authority {endpoint}: {other:?}", pid_of(*i)) }));
+            }
+            (false, Ok(_)) => {
+                return Ok(Some(Violation { class: "two_authorities".into(), signature: "two_authorities:next_to_reachable_authority".into(), detail: format!("server contender pid {} acquired the role although the advertised authority answers on {endpoint}; contenders: {summary:?}", pid_of(*i)) }));
+            }
+            (false, Err(_)) => stats.bump("refused", 1),
+        }
+    }
+    Ok(None)
+}
+
 pub fn execute(sc: &Scenario, env: &Env) -> (Outcome, RunStats) {
+    if sc.initial == Initial::ReachableInvisiblePid {
+        return execute_reachable(sc, env);
+    }
     let mut stats = RunStats::default();
     let dirs = storesim::begin_run(&env.root, sc.sim_seed, sc.clock_quantum_ms * 1_000_000);
     let data = dirs.data.clone();
@@ -199,6 +352,7 @@ pub fn execute(sc: &Scenario, env: &Env) -> (Outcome, RunStats) {
             g.lock_creator = Some(EXTERNAL_LIVE_PID);
             g.holders.push(EXTERNAL_LIVE_PID);
         }
+        Initial::ReachableInvisiblePid => {}
         Initial::DeadMetaLiveLock => {
             std::fs::write(auth.join("lock.json"), lock_json(EXTERNAL_LIVE_PID)).ok();
             std::fs::write(auth.join("meta.json"), meta_json(EXTERNAL_DEAD_PID)).ok();
@@ -536,7 +690,7 @@ impl Check for C18 {
         scenario.clone()
     }
     fn rule(&self) -> String {
-        "one evaluation = 2-5 contenders (distinct simulated pids) starting at staggered points from one of nine leftover states (lock and meta of a live authority in a record layout this build cannot parse, no files, lock of a dead pid, lock+meta of a dead pid, half-written lock, empty lock, lock of a live pid with/without meta, meta of a dead pid only, dead meta next to a live lock), each running the real acquire_authority_lock_with_recovery (1 in 4 scenarios: one contender is a client running rip-cli's attach / recovery loop instead — it cleans up and spawns, never holds); a contender that gets the role optionally writes meta, holds for 0-5 steps, then crashes (liveness flip, guard leaked) or releases; clock quantum 1-4 ms per read with optional jumps of 0.5-5 s; invariants at every scheduling point: at most one live holder, no rename/unlink of lock.json or meta.json that belongs to a live, unreleased pid by another pid; afterwards a fresh contender must acquire (or, with an external live authority, must be refused); distinct = hash of the (actor, point-class) trace; non-trivial = at least 2 context switches".into()
+        "one evaluation = 2-5 contenders (distinct simulated pids) starting at staggered points from one of ten leftover states (lock and meta of an authority that answers on its endpoint while its pid is invisible to the contenders — a real-time scenario outside the scheduler: clients must attach, servers must be refused, both files keep their bytes —, lock and meta of a live authority in a record layout this build cannot parse, no files, lock of a dead pid, lock+meta of a dead pid, half-written lock, empty lock, lock of a live pid with/without meta, meta of a dead pid only, dead meta next to a live lock), each running the real acquire_authority_lock_with_recovery (1 in 4 scenarios: one contender is a client running rip-cli's attach / recovery loop instead — it cleans up and spawns, never holds); a contender that gets the role optionally writes meta, holds for 0-5 steps, then crashes (liveness flip, guard leaked) or releases; clock quantum 1-4 ms per read with optional jumps of 0.5-5 s; invariants at every scheduling point: at most one live holder, no rename/unlink of lock.json or meta.json that belongs to a live, unreleased pid by another pid; afterwards a fresh contender must acquire (or, with an external live authority, must be refused); distinct = hash of the (actor, point-class) trace; non-trivial = at least 2 context switches".into()
     }
     fn assumptions(&self) -> Vec<String> {
         vec![
